@@ -333,6 +333,19 @@ func runCheck(prop, tier string, jobs int, only string, verbose, writeEvidence b
 			inconclusive = append(inconclusive, fmt.Sprintf("translator validation mismatch on %s %v:\n native: %v\n interp: %v %v", tv.Harness, tv.Inputs, nat, sym, r.Stats.Inconclusive))
 		}
 	}
+	var staticNotes []string
+	if pd := props[prop]; pd != nil && pd.static != nil {
+		sv, notes := pd.static(P)
+		staticNotes = notes
+		for i, v := range sv {
+			nviol++
+			rp := filepath.Join(verifDir, "replays", prop, fmt.Sprintf("static-%d.json", i+1))
+			bs, _ := json.MarshalIndent(map[string]string{"property": prop, "kind": "static", "finding": v}, "", " ")
+			os.WriteFile(rp, bs, 0o644)
+			fmt.Printf("VIOLATION property=%s replay=%s\n  %s\n", prop, rp, v)
+			exit = 1
+		}
+	}
 	if len(inconclusive) > 0 && exit == 0 {
 		exit = 3
 	}
@@ -406,6 +419,7 @@ func runCheck(prop, tier string, jobs int, only string, verbose, writeEvidence b
 				"stubs":                         sl,
 				"known_findings_seen":           knownSeen,
 				"inconclusive":                  inconclusive,
+				"static_scan":                   staticNotes,
 				"translator_validation":         map[string]int{"vectors_agreeing": tvOK, "vectors_disagreeing": tvBad},
 				"exhaustive":                    false,
 			},
